@@ -228,6 +228,143 @@ theorem converged_step_conserves (g : MDG) (hv : ValidIdx g)
     exact this.symm
   grind
 
+/-! ### clause "inter-cell fluxes cancel exactly" -/
+
+/-- Summing the divergence of ANY face field over all cells leaves only the faces with non-zero
+    column sum: `1ᵀ (D q) = Σ_f (1ᵀ D)_f q_f`. -/
+theorem divergence_sum_is_boundary_flux (s : Subdomain) (q : Nat → Rat) :
+    sumTo s.nc (mulVec s.nf s.D q) = sumTo s.nf (fun f => colSum s.nc s.D f * q f) :=
+  sum_mulVec s.nc s.nf s.D q
+
+/-- … so a flux field that vanishes on the boundary faces sums to zero: whatever leaves a cell
+    through an interior face enters its neighbour. -/
+theorem intercell_fluxes_cancel (s : Subdomain) (q : Nat → Rat)
+    (hq : ∀ f, f < s.nf → colSum s.nc s.D f ≠ 0 → q f = 0) :
+    sumTo s.nc (mulVec s.nf s.D q) = 0 := by
+  rw [divergence_sum_is_boundary_flux, sumTo_congr (g := fun _ => 0), sumTo_zero]
+  intro f hf
+  by_cases hc : colSum s.nc s.D f = 0
+  · rw [hc]; grind
+  · rw [hq f hf hc]; grind
+
+/-- Under (H1) the sum of the divergence is the signed sum of the boundary values only. -/
+theorem divergence_sum_signed_boundary (s : Subdomain) (q : Nat → Rat) (h1 : H1 s) :
+    sumTo s.nc (mulVec s.nf s.D q)
+      = sumTo s.nf (fun f => if colSum s.nc s.D f = 1 then q f
+                            else if colSum s.nc s.D f = -1 then - q f else 0) := by
+  rw [divergence_sum_is_boundary_flux]
+  apply sumTo_congr
+  intro f hf
+  have e0 : ¬ ((0 : Rat) = 1) := by decide
+  have e0' : ¬ ((0 : Rat) = -1) := by decide
+  have e1 : ¬ ((-1 : Rat) = 1) := by decide
+  rcases h1 f hf with h | h | h
+  · rw [h]; simp only [e0, e0', if_false]; grind
+  · rw [h]; simp only [if_true]; grind
+  · rw [h]; simp only [e1, if_false, if_true]; grind
+
+/-! ### (H2) follows from how `MortarGrid` builds the integrated projections -/
+
+theorem colSum_transpose (n : Nat) (M : Nat → Nat → Rat) (c : Nat) :
+    colSum n (transposeM M) c = rowSum n M c := rfl
+
+/-- the product of two averaged maps is an averaged map -/
+theorem rowStochastic_matMul (nr k nc : Nat) (A B : Nat → Nat → Rat)
+    (hA : RowStochastic nr k A) (hB : RowStochastic k nc B) : RowStochastic nr nc (matMul k A B) := by
+  intro r hr
+  unfold rowSum matMul
+  rw [sumTo_comm]
+  have h : ∀ j, j < k → sumTo nc (fun c => A r j * B j c) = A r j := by
+    intro j hj
+    rw [sumTo_mul_left]
+    have := hB j hj
+    unfold rowSum at this
+    rw [this]; grind
+  rw [sumTo_congr h]
+  exact hA r hr
+
+/-- for EVERY history of mortar / primary / secondary grid replacements by averaged matchings the
+    averaged map keeps unit row sums -/
+theorem rowStochastic_applyUpdates (nf : Nat) (ups : List (Nat × (Nat → Nat → Rat)))
+    (n : Nat) (avg : Nat → Nat → Rat) (h0 : RowStochastic n nf avg) (hu : UpdatesOK n ups) :
+    RowStochastic (applyUpdates n avg ups).1 nf (applyUpdates n avg ups).2 := by
+  induction ups generalizing n avg with
+  | nil => exact h0
+  | cons u rest ih =>
+    obtain ⟨n', U⟩ := u
+    exact ih n' (matMul n U avg) (rowStochastic_matMul n' n nf U avg hu.1 h0) hu.2
+
+/-- (H2) for a coupling whose integrated projections are the transposed averaged maps
+    (`_set_projections`) of row-stochastic averaged maps -/
+theorem h2_of_set_projections (g : MDG) (cp : Coupling) (pAvg sAvg : Nat → Nat → Rat)
+    (hp : cp.Ppm = setProjInt pAvg) (hs : cp.Psm = setProjInt sAvg)
+    (hpa : RowStochastic cp.nm (g.sd cp.prim).nf pAvg) (hsa : RowStochastic cp.nm (g.sd cp.sec).nc sAvg) :
+    H2 g cp := by
+  constructor
+  · intro m hm; rw [hp]; exact hpa m hm
+  · intro m hm; rw [hs]; exact hsa m hm
+
+/-! ### the hypotheses as decidable input conditions -/
+
+theorem checkH1_sound (s : Subdomain) (h : checkH1 s = true) : H1 s := by
+  intro f hf
+  have := allTo_sound h f hf
+  simp only [Bool.or_eq_true, beq_iff_eq] at this
+  rcases this with (h0 | h0) | h0
+  · exact Or.inl h0
+  · exact Or.inr (Or.inl h0)
+  · exact Or.inr (Or.inr h0)
+
+theorem checkH2_sound (g : MDG) (cp : Coupling) (h : checkH2 g cp = true) : H2 g cp := by
+  constructor
+  · intro m hm
+    have := allTo_sound h m hm
+    simp only [Bool.and_eq_true, beq_iff_eq] at this
+    exact this.1
+  · intro m hm
+    have := allTo_sound h m hm
+    simp only [Bool.and_eq_true, beq_iff_eq] at this
+    exact this.2
+
+theorem checkNC_sound (g : MDG) (cp : Coupling) (h : checkNC g cp = true) : NeumannConsistent g cp := by
+  intro f hf ht
+  have := allTo_sound h f hf
+  rw [isTarget_complete cp f ht] at this
+  simpa using this
+
+theorem checkClosed_sound (s : Subdomain) (h : checkClosed s = true) : ClosedBoundary s := by
+  intro f hf hne
+  have := allTo_sound h f hf
+  simp only [Bool.or_eq_true, beq_iff_eq] at this
+  rcases this with h0 | h0
+  · exact absurd h0 hne
+  · exact h0
+
+/-- **C04 with every hypothesis a decidable input condition**: whenever the Boolean check that
+    the driver evaluates on the matrices and vectors of a case succeeds, conservation holds for
+    that case. -/
+theorem checked_conservation (g : MDG) (h : checkAll g = true) :
+    totalResidual g = totalAccRate g - totalSrc g := by
+  unfold checkAll at h
+  simp only [Bool.and_eq_true] at h
+  obtain ⟨⟨hv, hc⟩, hcl⟩ := h
+  unfold checkValid at hv
+  rw [List.all_eq_true] at hv hc
+  refine total_residual_eq_total_accumulation g ?_ ?_ ?_ ?_
+  · intro cp hcp
+    have := hv cp hcp
+    simpa using this
+  · intro cp hcp
+    have := hc cp hcp
+    simp only [Bool.and_eq_true] at this
+    exact checkH2_sound g cp this.1
+  · intro cp hcp
+    have := hc cp hcp
+    simp only [Bool.and_eq_true] at this
+    exact checkNC_sound g cp this.2
+  · intro i hi
+    exact checkClosed_sound _ (allTo_sound hcl i hi)
+
 /-! ### non-vacuity: a concrete fractured md-grid
 
 Primary: 2 cells, 5 faces (f0, f2 external boundary; f1 interior; f3, f4 fracture faces, one on
@@ -333,5 +470,22 @@ example : AdTpfaCoded { exG with cps := [exCpAd true] } (exCpAd true) (fun f => 
     (fun _ => false) (fun f => f == 3 || f == 4) (fun _ => 1) := by
   refine ⟨rfl, ?_⟩
   unfold Target; decide +kernel
+
+/-- the Boolean input condition holds on the example grid (and fails for the averaged projection) -/
+example : checkAll exG = true ∧ checkAll exGTpfa = true ∧ checkAll exGAvg = false := by decide +kernel
+example : checkH1 exPrim = true := by decide +kernel
+
+/-- inter-cell cancellation on the example: the interior flux 7/3 through f1 does not appear -/
+example : sumTo exPrim.nc (mulVec exPrim.nf exPrim.D exPrim.F) = 0 := by decide +kernel
+
+/-- construction of (H2): a 2-to-1 averaged refinement of a 0-1 matching stays row-stochastic and
+    its transpose has unit column sums -/
+def exAvg0 : Nat → Nat → Rat := fun m f => if (m = 0 ∧ f = 3) ∨ (m = 1 ∧ f = 4) then 1 else 0
+def exUpd : Nat → Nat → Rat := fun m' m => if m' / 2 = m then 1 else 0   -- 4 new mortar cells from 2
+example : RowStochastic 2 5 exAvg0 := by unfold RowStochastic; decide +kernel
+example : UpdatesOK 2 [(4, exUpd)] := by
+  refine ⟨?_, trivial⟩
+  unfold RowStochastic; decide +kernel
+example : ∀ m, m < 4 → colSum 5 (setProjInt (applyUpdates 2 exAvg0 [(4, exUpd)]).2) m = 1 := by decide +kernel
 
 end PorepyVerif.C04
